@@ -498,6 +498,27 @@ Definition range_run := @sl_run range_value DFSDsetrange_marks_modified (DFSDIcl
                                 DFSDIputndg_range_applies_once
                                 (fun v => match v with Some _ => true | None => false end) None.
 
+(* --------------------------------------------- what the single-file readers keep from one call to the next *)
+(** dfan.c DFANIopen: the directories of annotation refs (labels, descriptions) built for the file used last are
+    thrown away when a different file is opened (or the file is created anew) and kept when the same file is opened
+    again.  Which directory is thrown away is read off the source. *)
+Definition dfan_open {A} (same_file : bool) (dirs : list A * list A) : list A * list A :=
+  if same_file then dirs
+  else ((if DFANIopen_forgets_label_directory then [] else fst dirs),
+        (if DFANIopen_forgets_desc_directory then [] else snd dirs)).
+
+(** df24.c: the images a caller gets who reads one image after the other without asking for the dimensions in
+    between.  groups = number of components of the raster-image groups of the file, in file order.  DF24getimage steps
+    to the next group through DF24getdims, which passes over every group that has not 3 components. *)
+Fixpoint df24_sequence (groups : list Z) : list Z :=
+  match groups with
+  | [] => []
+  | g :: r =>
+      if DF24getimage_steps_with_DF24getdims && DF24getdims_skips_other_groups
+      then (if g =? 3 then g :: df24_sequence r else df24_sequence r)
+      else g :: df24_sequence r
+  end.
+
 (* ------------------------------------------------ the coordinate variable of a dimension (mfsd.c SDgetdimstrs) *)
 (** strncmp(a, b, strlen(a)) == 0 for names without embedded NUL *)
 Fixpoint prefix_eqb (a b : list Z) : bool :=
